@@ -3,6 +3,7 @@ CONSTANTS
   Kind = "ring"
   Ops = {"o1", "o2"}
   FileOps = {}
+  SrcType = "pipe"
   MaxPend = 2
   MaxH = 3
   ResetProvides = FALSE
